@@ -340,6 +340,13 @@ def exh_seq(ctx):
         want_saved = "saved_state: Option::Some{0: capture_state(a1)}" if caps else "saved_state: Option::None"
         _rec(d, "new|saved-state|%s" % caps, want_saved in r, "SequenceIterator::new must snapshot the capture state iff the sequence contains capturing expressions; found %s" % r[:200], loc)
         _rec(d, "new|first-iterator", "iterators: vec![matches_iter(Option::unwrap(first(a2)), a1, a3)]" in r and "operations: a2" in r and "matcher: a1" in r, "the stack must start with operations[0].matches_iter(matcher, position)", loc)
+        if caps:
+            # the snapshot is taken before the first term's iterator exists: the repeat operators match eagerly while
+            # their iterator is built, and a snapshot taken afterwards already holds what they captured
+            cs_ = _calls(p)
+            si = [i for i, c in enumerate(cs_) if c[0] == "capture_state"]
+            mi_ = [i for i, c in enumerate(cs_) if c[0].endswith("matches_iter")]
+            _rec(d, "new|snapshot-before-first-term", bool(si) and bool(mi_) and si[0] < mi_[0], "SequenceIterator::new must save the capture state before it asks the first term for its iterator (order of calls: %s)" % [c[0] for c in cs_ if c[0] == "capture_state" or c[0].endswith("matches_iter")], loc)
     sm = ctx.body("<op_sequence::Sequence as %s>::matches_iter" % OC)
     if sm is not None:
         rs = {_sh(strip_ver(render(p.ret))) for p in ctx.walk(sm).paths}
